@@ -134,10 +134,88 @@ func c07Payload(rng *vrng, class int) []byte {
 	}
 }
 
+
+// c07FailCfg fails the next n Save calls of the config file (the upload of an upgraded config).
+type c07FailCfg struct {
+	backend.Backend
+	failNext int
+}
+
+// an atomically replacing backend: a failed upload leaves the old config in place
+func (b *c07FailCfg) Properties() backend.Properties {
+	p := b.Backend.Properties()
+	p.HasAtomicReplace = true
+	return p
+}
+
+func (b *c07FailCfg) Save(ctx context.Context, h backend.Handle, rd backend.RewindReader) error {
+	if h.Type == backend.ConfigFile && b.failNext > 0 {
+		b.failNext--
+		return errors.New("verif: config upload failed")
+	}
+	return b.Backend.Save(ctx, h, rd)
+}
+
+// c07FailedUpgrade: version-1 repository, UpgradeRepo through handle A whose config upload fails (the
+// backend keeps the v1 config), further saveUnpacked through the SAME handle A, LoadUnpacked through a
+// fresh handle B opened from the real config. What A saves must load back through B.
+func c07FailedUpgrade(c *vctx) error {
+	vsetupFast()
+	ctx := context.Background()
+	inner := mem.New()
+	be := &c07FailCfg{Backend: inner}
+	repoA, err := repository.New(be, repository.Options{})
+	if err != nil {
+		return err
+	}
+	pol := chunker.Pol(0x3DA3358B4DC173)
+	if err := repoA.Init(ctx, 1, vPassword, &pol); err != nil {
+		return err
+	}
+	be.failNext = 1
+	uerr := repository.UpgradeRepo(ctx, repoA)
+	rng := c.rng.fork()
+	for i := 0; i < 12; i++ {
+		ft := c07Types[i%3] // index, snapshot, lock
+		p := c07Payload(rng, []int{3, 1, 4, 6, 0, 2}[i%6])
+		id, serr := repository.VerifC07SaveUnpacked(ctx, repoA, ft.t, p)
+		saved := serr == nil
+		repoB, err := repository.New(be, repository.Options{})
+		if err != nil {
+			return err
+		}
+		if err := repoB.SearchKey(ctx, vPassword, 5, ""); err != nil {
+			return err
+		}
+		vB := repoB.Config().Version
+		storedPlain, idOK, loaded := []byte{}, false, "(Err EOther)"
+		if saved {
+			if ct, lerr := c07Raw(inner, ft.t, id.String()); lerr == nil {
+				idOK = sha256.Sum256(ct) == id
+				key := repoB.Key()
+				if len(ct) >= crypto.CiphertextLength(0) {
+					if pl, oerr := key.Open(nil, ct[:key.NonceSize()], ct[key.NonceSize():], nil); oerr == nil {
+						storedPlain = pl
+					}
+				}
+			}
+			out, lerr := repoB.LoadUnpacked(ctx, ft.t, id)
+			loaded = c07Res(&c07Repo{be: inner}, out, lerr, "")
+		}
+		c.Case("save-after-failed-upgrade/"+ft.name, len(p) > 0, len(p), fmt.Sprintf("C07m.CSave %s %s %s [] %s %s %s %s", coqN(uint64(vB)), ft.coq, coqHex(p),
+			coqHex(storedPlain), coqBool(idOK), coqBool(saved), loaded),
+			fmt.Sprintf("v1 repo, UpgradeRepo err=%v, handle A version=%d, fresh handle B version=%d, %s payload[%d] -> saved=%v stored[%d] loaded=%.40s", uerr != nil, repoA.Config().Version, vB, ft.name, len(p), saved, len(storedPlain), loaded))
+	}
+	return nil
+}
+
 func engineC07(c *vctx) error {
 	c.Header("Model.C07m", "C07m.case", "C07m.check_case")
 	c.Preamble("Import C07m.")
 	ctx := context.Background()
+	if err := c07FailedUpgrade(c); err != nil {
+		return err
+	}
 	type cfg struct {
 		v        uint
 		mode     repository.CompressionMode
